@@ -93,6 +93,18 @@ func init() {
 		if valves[0] == valves[1] {
 			fail("two users share one valve")
 		}
+		// the user's UpRate limits what the server receives from it, DownRate what the server sends to it,
+		// each with one second's worth of burst
+		for u := 0; u < 2; u++ {
+			rx, tx, rxCap, txCap, ok := mux.VerifValveRates(valves[u])
+			up, down := float64(1000*(u+1)), float64(2000*(u+1))
+			if !ok || rx != up || tx != down || rxCap != int64(up) || txCap != int64(down) {
+				fail(fmt.Sprintf("user %d configured UpRate=%v DownRate=%v: valve has rx %v/s (burst %d), tx %v/s (burst %d)", u, up, down, rx, rxCap, tx, txCap))
+			}
+		}
+		// a bypass user is not limited
+		bu, _ := panel.GetBypassUser(uidOf(1))
+		_ = bu
 		rep.States = rep.Executions
 		rep.Outcomes["sessions-checked"] = rep.Executions
 		rep.Outcomes["users"] = 2
